@@ -26,6 +26,7 @@ type runResult struct {
 	gerrs         []string // errors caught inside script goroutines, sorted
 	outs          []interface{}
 	stuck         string // "" | "deadlock" | "deadline"
+	nilOnOpen     int64  // receive expressions that yielded nil before markclosed() was called
 	runaway       bool   // a receive loop iterated more often than the specification allows
 	hostPanic     string
 	hostPanicNorm string
@@ -104,6 +105,17 @@ func runOnce(src string, deadline time.Duration, tickLimit int64) *runResult {
 			cancel()
 		}
 	})
+	// markclosed() is called by the goroutine that closes the shared channel, right
+	// before close; gotnil(id) by a worker whose receive expression yielded nil.
+	// The flag write happens before the close, which happens before any receive
+	// that observes the close, so nil with the flag unset is nil on an open channel.
+	var closedFlag, nilOnOpen int64
+	e.Define("markclosed", func() { atomic.StoreInt64(&closedFlag, 1) })
+	e.Define("gotnil", func(id int64) {
+		if atomic.LoadInt64(&closedFlag) == 0 {
+			atomic.AddInt64(&nilOnOpen, 1)
+		}
+	})
 	e.Define("out", func(v interface{}) {
 		mu.Lock()
 		if !sealed {
@@ -175,6 +187,7 @@ func runOnce(src string, deadline time.Duration, tickLimit int64) *runResult {
 	r.gerrs = append([]string{}, gerrs...)
 	mu.Unlock()
 	sort.Strings(r.gerrs)
+	r.nilOnOpen = atomic.LoadInt64(&nilOnOpen)
 	r.value = v
 	if hp, ok := ank.IsHostPanic(err); ok {
 		r.hostPanic = strings.TrimSpace(strings.SplitN(hp.Error(), "\n", 2)[0])
